@@ -42,6 +42,35 @@ def regex_id(pattern):
     return REGEX_IDS[key]
 
 
+def regex_term(st, pattern, s):
+    """fullmatch(pattern, s) for a symbolic str as an uninterpreted predicate,
+    tied to CPython's own answer on every string literal the path knows."""
+    rid = regex_id(pattern)
+    if not hasattr(st, 'regex_seen'):
+        st.regex_seen = {}
+        st.literal_hooks = list(getattr(st, 'literal_hooks', ())) + [_regex_literal_hook]
+    t = st.str_term(s)
+    st.regex_seen[rid] = pattern
+    st.str_facts(sym.EMPTY_STR)
+    for lit, lt_ in [('', sym.EMPTY_STR)] + list(st.str_lits.items()):
+        key = ('regex', rid, lit)
+        if key not in st.facts_done:
+            st.facts_done.add(key)
+            ok = pattern.fullmatch(lit) is not None
+            f = regex_match(z3.IntVal(rid), lt_)
+            st.assume(f if ok else z3.Not(f))
+    return regex_match(z3.IntVal(rid), t)
+
+
+def _regex_literal_hook(st, lit, term):
+    for rid, pattern in st.regex_seen.items():
+        key = ('regex', rid, lit)
+        if key not in st.facts_done:
+            st.facts_done.add(key)
+            f = regex_match(z3.IntVal(rid), term)
+            st.assume(f if pattern.fullmatch(lit) is not None else z3.Not(f))
+
+
 class SymMethod:
     __slots__ = ('obj', 'name')
 
@@ -310,7 +339,7 @@ class Library:
                 if name != 'fullmatch':
                     # '^...$' patterns: match == fullmatch only without a trailing newline; keep exact
                     raise OutOfSubset('re.%s on symbolic str' % name)
-                return mk_bool(regex_match(z3.IntVal(regex_id(recv)), st.str_term(s)))
+                return mk_bool(regex_term(st, recv, s))
             if sym.is_symbolic(s):
                 raise Raised(TypeError, ('expected string or bytes-like object',))
             try:
@@ -629,8 +658,7 @@ class Library:
         st = self.st
         if all(isinstance(a, int) for a in atoms):
             return _struct.unpack('>' + kind, bytes(atoms))[0]
-        c = st.new_chunk('fbytes')
-        st.refine_chunk(c, atoms)
+        c = st.name_rope(list(atoms), 'fbytes')
         return SFloat((f32_of if kind == 'f' else f64_of)(c.t))
 
     # ------------------------------------------------------------ floats / decimals / datetimes
